@@ -12,6 +12,7 @@ is W6's `edit` when the decision is the element-name stand-in.
 -/
 import RioModel.Proofs.FilterDom
 import RioModel.Model.FilterHtml
+import RioModel.Proofs.FilterDomTok
 set_option linter.unusedSimpArgs false
 set_option linter.unusedVariables false
 
@@ -122,6 +123,146 @@ theorem filters_compose_checked (lower : String → String) (doc : List Node) (f
     (Chain.new noCodec lower fs [] : Chain Unit Unit).run tk ev noCodec [serializeList doc] =
       serializeList (editAllD (decOf ev) doc fs) :=
   filters_compose tk ev (vtOf tk) lower (vtOf_lossless tk) doc fs (stepsOKB_sound tk ev (vtOf tk) fs doc h)
+
+
+/-! ### byte level -/
+
+/-- **tokens(x ++ y) = tokens(x) ++ tokens(y)** for the tokenizer instance of the filters (the C16 model), for every
+`y`, whenever the tokens of `x` are all produced before the end of `x` is reached, consume `x` entirely and leave the
+tokenizer outside a raw-text context (`Closed`, decidable by `closedB`).  Derived from W5's simulation lemma for
+`next` (prefix stability + restart). -/
+theorem tokenize_append {x y : Bytes} {ts ts' : List Tok} {r : Bytes} (hc : Closed x ts)
+    (hy : htmlTokenize? y = some (ts', r)) : htmlTokenize? (x ++ y) = some (ts ++ ts', r) :=
+  htmlTokenize?_append hc hy
+
+/-- **a text followed by a tag** is one text token followed by the tokens of the rest: the only look-ahead of the
+tokenizer (`<` + letter, `/`, `!` or `?`). -/
+theorem tokenize_text_then_tag {tx y : Bytes} {c : Nat} {rest : Bytes} {ts' : List Tok} {r : Bytes}
+    (hne : tx ≠ []) (h60 : ∀ b ∈ tx, b ≠ 60) (hy0 : y = 60 :: c :: rest) (hop : isOpener c = true)
+    (hy : htmlTokenize? y = some (ts', r)) :
+    htmlTokenize? (tx ++ y) = some (⟨.text, tx, []⟩ :: ts', r) :=
+  htmlTokenize?_text hne h60 hy0 hop hy
+
+/-- **`tokenize (serialize d) = tokensOf d`, compositional form** (any document): it suffices that every unit — each
+tag on its own, each raw-text element as a whole, each text together with the tag that follows it — is tokenised as
+expected in isolation (`unitsOKB`, a local decidable check; `vt` = the expected tokens of the verbatim pieces). -/
+theorem tokenize_serialize_units (vt : Bytes → List Tok) (doc : List Node)
+    (h : unitsOKB (mergeUnits (piecesOfList vt doc)) = true) :
+    htmlTokenize (serializeList doc) = (tokensOfList vt doc, []) :=
+  Rio.Filter.tokenize_serialize_units vt doc h
+
+/-- a vocabulary of 68 start tags (13 element names x 5 attribute texts incl. a quoted `>`, an unquoted
+value, single quotes, a valueless attribute, plus three upper / mixed-case spellings), 4 self-closing tags and
+14 end tags -/
+def exVocab : Vocab :=
+  { starts := [([104, 116, 109, 108], [104, 116, 109, 108], []),
+      ([104, 116, 109, 108], [104, 116, 109, 108], [32, 99, 108, 97, 115, 115, 61, 34, 112, 97, 103, 101, 34]),
+      ([104, 116, 109, 108], [104, 116, 109, 108], [32, 105, 100, 61, 109, 97, 105, 110]),
+      ([104, 116, 109, 108], [104, 116, 109, 108], [32, 116, 105, 116, 108, 101, 61, 34, 97, 32, 62, 32, 98, 34]),
+      ([104, 116, 109, 108], [104, 116, 109, 108], [32, 100, 97, 116, 97, 45, 120, 61, 39, 49, 39, 32, 104, 105, 100, 100, 101, 110]),
+      ([104, 101, 97, 100], [104, 101, 97, 100], []),
+      ([104, 101, 97, 100], [104, 101, 97, 100], [32, 99, 108, 97, 115, 115, 61, 34, 112, 97, 103, 101, 34]),
+      ([104, 101, 97, 100], [104, 101, 97, 100], [32, 105, 100, 61, 109, 97, 105, 110]),
+      ([104, 101, 97, 100], [104, 101, 97, 100], [32, 116, 105, 116, 108, 101, 61, 34, 97, 32, 62, 32, 98, 34]),
+      ([104, 101, 97, 100], [104, 101, 97, 100], [32, 100, 97, 116, 97, 45, 120, 61, 39, 49, 39, 32, 104, 105, 100, 100, 101, 110]),
+      ([98, 111, 100, 121], [98, 111, 100, 121], []),
+      ([98, 111, 100, 121], [98, 111, 100, 121], [32, 99, 108, 97, 115, 115, 61, 34, 112, 97, 103, 101, 34]),
+      ([98, 111, 100, 121], [98, 111, 100, 121], [32, 105, 100, 61, 109, 97, 105, 110]),
+      ([98, 111, 100, 121], [98, 111, 100, 121], [32, 116, 105, 116, 108, 101, 61, 34, 97, 32, 62, 32, 98, 34]),
+      ([98, 111, 100, 121], [98, 111, 100, 121], [32, 100, 97, 116, 97, 45, 120, 61, 39, 49, 39, 32, 104, 105, 100, 100, 101, 110]),
+      ([100, 105, 118], [100, 105, 118], []),
+      ([100, 105, 118], [100, 105, 118], [32, 99, 108, 97, 115, 115, 61, 34, 112, 97, 103, 101, 34]),
+      ([100, 105, 118], [100, 105, 118], [32, 105, 100, 61, 109, 97, 105, 110]),
+      ([100, 105, 118], [100, 105, 118], [32, 116, 105, 116, 108, 101, 61, 34, 97, 32, 62, 32, 98, 34]),
+      ([100, 105, 118], [100, 105, 118], [32, 100, 97, 116, 97, 45, 120, 61, 39, 49, 39, 32, 104, 105, 100, 100, 101, 110]),
+      ([112], [112], []),
+      ([112], [112], [32, 99, 108, 97, 115, 115, 61, 34, 112, 97, 103, 101, 34]),
+      ([112], [112], [32, 105, 100, 61, 109, 97, 105, 110]),
+      ([112], [112], [32, 116, 105, 116, 108, 101, 61, 34, 97, 32, 62, 32, 98, 34]),
+      ([112], [112], [32, 100, 97, 116, 97, 45, 120, 61, 39, 49, 39, 32, 104, 105, 100, 100, 101, 110]),
+      ([115, 112, 97, 110], [115, 112, 97, 110], []),
+      ([115, 112, 97, 110], [115, 112, 97, 110], [32, 99, 108, 97, 115, 115, 61, 34, 112, 97, 103, 101, 34]),
+      ([115, 112, 97, 110], [115, 112, 97, 110], [32, 105, 100, 61, 109, 97, 105, 110]),
+      ([115, 112, 97, 110], [115, 112, 97, 110], [32, 116, 105, 116, 108, 101, 61, 34, 97, 32, 62, 32, 98, 34]),
+      ([115, 112, 97, 110], [115, 112, 97, 110], [32, 100, 97, 116, 97, 45, 120, 61, 39, 49, 39, 32, 104, 105, 100, 100, 101, 110]),
+      ([97], [97], []),
+      ([97], [97], [32, 99, 108, 97, 115, 115, 61, 34, 112, 97, 103, 101, 34]),
+      ([97], [97], [32, 105, 100, 61, 109, 97, 105, 110]),
+      ([97], [97], [32, 116, 105, 116, 108, 101, 61, 34, 97, 32, 62, 32, 98, 34]),
+      ([97], [97], [32, 100, 97, 116, 97, 45, 120, 61, 39, 49, 39, 32, 104, 105, 100, 100, 101, 110]),
+      ([117, 108], [117, 108], []),
+      ([117, 108], [117, 108], [32, 99, 108, 97, 115, 115, 61, 34, 112, 97, 103, 101, 34]),
+      ([117, 108], [117, 108], [32, 105, 100, 61, 109, 97, 105, 110]),
+      ([117, 108], [117, 108], [32, 116, 105, 116, 108, 101, 61, 34, 97, 32, 62, 32, 98, 34]),
+      ([117, 108], [117, 108], [32, 100, 97, 116, 97, 45, 120, 61, 39, 49, 39, 32, 104, 105, 100, 100, 101, 110]),
+      ([108, 105], [108, 105], []),
+      ([108, 105], [108, 105], [32, 99, 108, 97, 115, 115, 61, 34, 112, 97, 103, 101, 34]),
+      ([108, 105], [108, 105], [32, 105, 100, 61, 109, 97, 105, 110]),
+      ([108, 105], [108, 105], [32, 116, 105, 116, 108, 101, 61, 34, 97, 32, 62, 32, 98, 34]),
+      ([108, 105], [108, 105], [32, 100, 97, 116, 97, 45, 120, 61, 39, 49, 39, 32, 104, 105, 100, 100, 101, 110]),
+      ([109, 97, 105, 110], [109, 97, 105, 110], []),
+      ([109, 97, 105, 110], [109, 97, 105, 110], [32, 99, 108, 97, 115, 115, 61, 34, 112, 97, 103, 101, 34]),
+      ([109, 97, 105, 110], [109, 97, 105, 110], [32, 105, 100, 61, 109, 97, 105, 110]),
+      ([109, 97, 105, 110], [109, 97, 105, 110], [32, 116, 105, 116, 108, 101, 61, 34, 97, 32, 62, 32, 98, 34]),
+      ([109, 97, 105, 110], [109, 97, 105, 110], [32, 100, 97, 116, 97, 45, 120, 61, 39, 49, 39, 32, 104, 105, 100, 100, 101, 110]),
+      ([104, 49], [104, 49], []),
+      ([104, 49], [104, 49], [32, 99, 108, 97, 115, 115, 61, 34, 112, 97, 103, 101, 34]),
+      ([104, 49], [104, 49], [32, 105, 100, 61, 109, 97, 105, 110]),
+      ([104, 49], [104, 49], [32, 116, 105, 116, 108, 101, 61, 34, 97, 32, 62, 32, 98, 34]),
+      ([104, 49], [104, 49], [32, 100, 97, 116, 97, 45, 120, 61, 39, 49, 39, 32, 104, 105, 100, 100, 101, 110]),
+      ([98, 114], [98, 114], []),
+      ([98, 114], [98, 114], [32, 99, 108, 97, 115, 115, 61, 34, 112, 97, 103, 101, 34]),
+      ([98, 114], [98, 114], [32, 105, 100, 61, 109, 97, 105, 110]),
+      ([98, 114], [98, 114], [32, 116, 105, 116, 108, 101, 61, 34, 97, 32, 62, 32, 98, 34]),
+      ([98, 114], [98, 114], [32, 100, 97, 116, 97, 45, 120, 61, 39, 49, 39, 32, 104, 105, 100, 100, 101, 110]),
+      ([105, 109, 103], [105, 109, 103], []),
+      ([105, 109, 103], [105, 109, 103], [32, 99, 108, 97, 115, 115, 61, 34, 112, 97, 103, 101, 34]),
+      ([105, 109, 103], [105, 109, 103], [32, 105, 100, 61, 109, 97, 105, 110]),
+      ([105, 109, 103], [105, 109, 103], [32, 116, 105, 116, 108, 101, 61, 34, 97, 32, 62, 32, 98, 34]),
+      ([105, 109, 103], [105, 109, 103], [32, 100, 97, 116, 97, 45, 120, 61, 39, 49, 39, 32, 104, 105, 100, 100, 101, 110]),
+      ([100, 105, 118], [68, 73, 86], []),
+      ([98, 111, 100, 121], [66, 111, 100, 121], [32, 99, 108, 97, 115, 115, 61, 34, 112, 97, 103, 101, 34]),
+      ([112], [80], [])],
+    selfs := [([98, 114], [98, 114], []),
+      ([98, 114], [98, 114], [32]),
+      ([105, 109, 103], [105, 109, 103], [32, 99, 108, 97, 115, 115, 61, 34, 112, 97, 103, 101, 34, 32]),
+      ([120, 45, 109, 97, 114, 107], [120, 45, 109, 97, 114, 107], [])],
+    ends := [([104, 116, 109, 108], [104, 116, 109, 108]),
+      ([104, 101, 97, 100], [104, 101, 97, 100]),
+      ([98, 111, 100, 121], [98, 111, 100, 121]),
+      ([100, 105, 118], [100, 105, 118]),
+      ([112], [112]),
+      ([115, 112, 97, 110], [115, 112, 97, 110]),
+      ([97], [97]),
+      ([117, 108], [117, 108]),
+      ([108, 105], [108, 105]),
+      ([109, 97, 105, 110], [109, 97, 105, 110]),
+      ([104, 49], [104, 49]),
+      ([100, 105, 118], [68, 73, 86]),
+      ([98, 111, 100, 121], [66, 111, 100, 121]),
+      ([112], [80])] }
+
+/-- every tag of the vocabulary is tokenised as expected on its own (kernel evaluation of the C16 tokenizer model) -/
+theorem exVocab_ok : exVocab.ok = true := by decide +kernel
+
+/-- **`tokenize (serialize d) = tokensOf d` for ALL documents over the vocabulary** (`simpleL`: elements of kind
+normal / void / self-closing whose tags are in the vocabulary, nested to any depth; text nodes non-empty and free of
+`<`, no two adjacent; the document does not end with a text): whatever the shape and the size of the tree. -/
+theorem tokenize_serialize (doc : List Node) (hs : simpleL exVocab doc = true) (hl : lastIsVerb doc = false) :
+    htmlTokenize (serializeList doc) = (tokensOfList textToks doc, []) :=
+  tokenize_serialize_simple exVocab exVocab_ok doc hs hl
+
+/-- **End to end on that class**: for every such document (valid UTF-8) and every filter in its domain, the chain
+model with the C16 tokenizer — `FilterBodyAction::new`, one `filter` call, `end` — emits the serialisation of the
+reference edit.  No hypothesis about the tokenizer is left. -/
+theorem end_to_end_simple (ev : Bytes → Bytes → Bool) (lower : String → String) (doc : List Node) (f : BodyFilter)
+    (hs : simpleL exVocab doc = true) (hl : lastIsVerb doc = false)
+    (hu : utf8Split (serializeList doc) = some (serializeList doc, []))
+    (hdom : InDomain htmlTokenize textToks doc f) :
+    (Chain.new noCodec lower [f] [] : Chain Unit Unit).run htmlTokenize ev noCodec [serializeList doc] =
+      serializeList (editD (decOf ev) doc f) :=
+  filter_spec htmlTokenize ev textToks lower textToks_lossless doc f hdom
+    (tokAgree_simple exVocab exVocab_ok doc hs hl hu)
 
 /-! ### the excluded points are real (kernel-checked on the chain model with the tokenizer of C16) -/
 
